@@ -128,6 +128,7 @@ use super::resource::Resource;
 use crate::io::Fd;
 use crate::job::Pid;
 use crate::job::ProcessState;
+use crate::path::Component;
 use crate::path::Path;
 use crate::path::PathBuf;
 use crate::semantics::ExitStatus;
@@ -982,13 +983,53 @@ impl Chdir for VirtualSystem {
         let path = Path::new(UnixStr::from_bytes(path.to_bytes()));
         let inode = self.resolve_existing_file(AT_FDCWD, path, /* follow links */ true)?;
         if matches!(&inode.borrow().body, FileBody::Directory { .. }) {
-            let mut process = self.current_process_mut();
-            let new_path = process.cwd.join(path);
-            process.chdir(new_path);
+            let new_path = self.physical_path(path)?;
+            self.current_process_mut().chdir(new_path);
             Ok(())
         } else {
             Err(Errno::ENOTDIR)
         }
+    }
+}
+
+impl VirtualSystem {
+    /// Computes the absolute path of an existing file that contains no `.`,
+    /// `..` or symbolic link components, as a kernel does for the working
+    /// directory.
+    fn physical_path(&self, path: &Path) -> Result<PathBuf> {
+        const _POSIX_SYMLOOP_MAX: i32 = 8;
+        let state = self.state.borrow();
+        let mut result = PathBuf::from("/");
+        let mut pending = vec![self.resolve_relative_path(path).into_owned()];
+        let mut link_count = 0;
+        while let Some(path) = pending.pop() {
+            let mut components = path.components();
+            while let Some(component) = components.next() {
+                match component {
+                    Component::RootDir => result = PathBuf::from("/"),
+                    Component::CurDir => (),
+                    Component::ParentDir => {
+                        result.pop();
+                    }
+                    Component::Normal(name) => {
+                        result.push(name);
+                        let inode = state.file_system.get(&result)?;
+                        if let FileBody::Symlink { target } = &inode.borrow().body {
+                            link_count += 1;
+                            if link_count > _POSIX_SYMLOOP_MAX {
+                                return Err(Errno::ELOOP);
+                            }
+                            result.pop();
+                            // Resolve the target first, then the rest of this path
+                            pending.push(components.as_path().to_path_buf());
+                            pending.push(target.clone());
+                            break;
+                        }
+                    }
+                }
+            }
+        }
+        Ok(result)
     }
 }
 
